@@ -1125,6 +1125,9 @@ func (x *FnExec) loadGlobal(st *State, gl *ssa.Global) Value {
 		x.globErrs[gl] = e
 		return e
 	}
+	if x.E.zeroGlobal[gl] {
+		return x.zeroVal(t)
+	}
 	if str, ok := x.E.bytesGlobal[gl]; ok {
 		return x.constBytesGlobal(st, gl, str)
 	}
